@@ -9,6 +9,16 @@ claimed = {
    text="Every exported operation of IntSet/IntMap that is under contract (NewIntSet, Len, Insert, insertValue, Union, NewIntMap, clone, Get, Keys, Inc) is proved, for all inputs, lengths, capacities and aliasing, to (a) keep the strictly-sorted representation invariant, (b) return exactly the set/map the mathematical model gives (membership / domain+value postconditions over the whole view), (c) write only memory allocated by the call (frame obligation on every store, append, copy and map update). (c) for every operation is what makes 'no earlier value changes' hold for every history of calls. Filter and Each are higher-order and not yet under contract.",
    design_ref="DESIGN.md section 4 (C15), section 9 (implementation status)",
    note="Trusted: go/ssa as the semantics of Go, the govc VC generator, the SMT solvers, the assumed contract of sort.SearchInts, mathematical integers with explicit overflow obligations. IntMap.Filter, IntMap.Each, IntSet.Each are not under contract yet (closure-iteration schema pending)."),
+ "C09": dict(
+   category="proof",
+   text="Every text.Reader primitive (ReadRune, MatchString, MatchWord, ReadRegexp, ReadRegexpSubmatch, Readf, Remaining, IsEOF, SkipWhitespaces, Pos) and the File accessors are proved against byte-level postconditions for all file contents, all base offsets >= 1 and all positions inside the file: on mismatch the original position is returned, on match the new position is old + matched length and <= end of file; every index and slice expression is proved in bounds (safety obligations), every + and - is proved not to overflow. For regexp and UTF-8 primitives what is matched is delegated to assumed contracts of regexp/utf8; positions, bounds and 'value is the matched span' are proved.",
+   design_ref="DESIGN.md section 4 (C09), section 9",
+   note="Trusted: assumed contracts of utf8.DecodeRune, bytes.HasPrefix, regexp (MustCompile/Match/FindIndex/FindSubmatch), fmt.Errorf; file invariant wfFile (offset >= 1, len == len(data) <= 2^48) as precondition, established by NewFile (proved) and SetOffset(o>=1)."),
+ "C11": dict(
+   category="proof",
+   text="FileSet.AddFile/NewFileSet are proved to maintain the representation invariant (file i owns [offset[i], offset[i]+Len(i)], next file starts right after, first offset 1); FileSet.Position is proved to return unknown exactly for 0 and positions >= the end, and otherwise to delegate to the unique owning file with a local offset in [0, Len]; lemma `injective` proves distinct (file, offset) pairs have distinct in-range global positions. File.setLines is proved to build exactly the table of line starts (0 and successors of LF, strictly increasing, none skipped) and File.Position to return the line whose start is the greatest start <= pos and column = pos - start + 1, unknown above len.",
+   design_ref="DESIGN.md section 4 (C11), section 9",
+   note="Trusted: sort.Search (binary-search postcondition valid for any predicate), bytes.Replace (returns a fresh copy; CRLF normalisation itself is not specified), File implementations' Len() being pure, stable and <= 2^48. 'Line = 1 + number of LF before pos' follows from the structural line-table invariant by counting; that step is a named meta-argument. Position.String/fmt rendering is not under contract. Positions are required >= 0."),
 }
 NA = {
  "C05": "differential agreement with a reference evaluator on a client grammar: depends on the shape of trees built by curtailed left recursion (C01's global theorem) plus a model of client interpreters; no contract on a function of /repo states it",
